@@ -499,7 +499,13 @@ func buildObjTx(ins []objIn, fl flagSet) []*Case {
 		if in.dv != 0 {
 			cls = "signature-over(" + dvn + ")"
 		}
+		if inKinds[in.kind].sv == "taproot" && !refhash.ValidTaprootHashType(in.ht) {
+			cls = "signature-with-undefined-hash-type"
+		}
 		ht := htName(in.ht)
+		if !refhash.ValidTaprootHashType(in.ht) {
+			ht = fmt.Sprintf("0x%02x", in.ht)
+		}
 		if inKinds[in.kind].name == "p2wsh-2of2" {
 			ht += "+" + htName(in.ht2)
 		}
@@ -541,7 +547,13 @@ func (w *worker) evalShared(cases []*Case, orders [][]int, ord int64) {
 		g := implTx(cases[0])
 		for step, idx := range seq {
 			c := cases[idx]
-			w.cur.Store(c)
+			cur := *c
+			cur.shared = append([]int{}, seq[:step]...)
+			if step > 0 {
+				cur.Tag = "after(" + cases[seq[step-1]].Tag + ")"
+				cur.Label = fmt.Sprintf("%s, verified on one transaction object after inputs %v (last: %s)", c.Label, seq[:step], cases[seq[step-1]].Label)
+			}
+			w.cur.Store(&cur)
 			atomic.StoreInt64(&w.since, time.Now().UnixNano())
 			impl, pan := implVerifyOn(g, c, idx)
 			atomic.StoreInt64(&w.since, 0)
@@ -645,6 +657,26 @@ func famObj(r *ev.Run, p *pool) {
 						submit([]objIn{{kind: k1, ht: h1, ht2: nextHT(h1), dv: dv}, {kind: k2, ht: h2, ht2: 1}}, orders2)
 					}
 				}
+			}
+		}
+	}
+	// taproot inputs whose 65-byte signature ends in a hash type BIP341 does not define
+	// (must be refused) next to ordinary inputs: the refusal must not disturb the others
+	partners := []int{0, 2, 4, 5, 6}
+	for _, ku := range []int{4, 5} {
+		for _, hu := range []byte{0x04, 0x84, 0xff} {
+			for _, kp := range partners {
+				for _, hp := range objHT {
+					if !r.Thorough() && hp != 1 && hp != 0x83 {
+						continue
+					}
+					submit([]objIn{{kind: ku, ht: hu}, {kind: kp, ht: hp, ht2: nextHT(hp)}}, orders2)
+					submit([]objIn{{kind: kp, ht: hp, ht2: nextHT(hp)}, {kind: ku, ht: hu}}, orders2)
+				}
+			}
+			for _, hp := range []byte{1, 0x82} {
+				submit([]objIn{{kind: ku, ht: hu}, {kind: 0, ht: hp}, {kind: 9 - ku, ht: nextHT(hp)}}, orders3)
+				submit([]objIn{{kind: 2, ht: hp, ht2: 0x83}, {kind: ku, ht: hu}, {kind: ku, ht: 0xff - hu + 4}}, orders3)
 			}
 		}
 	}
